@@ -1,6 +1,6 @@
 """C01 — see DESIGN.md §6 C01. Shares harness/wire_main.cpp and the Lean wire model with C01–C04; additionally ties the
 InputMemoryStream / OutputMemoryStream models to the real classes (harness/c01_cursor.cpp)."""
-import os, random, re, struct
+import glob, os, random, re, struct, time
 from vlib import core, corr
 from checks import wire_checks
 from checks import wire_common as wc
@@ -14,17 +14,31 @@ MANIFEST = dict(
          "Every entry point (modelled or not) is driven under ASan/UBSan/LSan on structured, mutated, every-length and random buffers with an accessor sweep. "
          "The list of entry points is regenerated from the clang AST of the headers on every run (every public constructor / static / member / "
          "free function taking const uint8_t* + size, 128 today); theorem entry_points_covered (by decide) demands a disposition (Lean model + "
-         "theorem | harness | not a parser) for each, and harness/c01_entry.cpp calls every one that is not `not a parser`.",
+         "theorem | harness | not a parser) for each, and harness/c01_entry.cpp calls every one that is not `not a parser`. "
+         "Raw-site tie: translator/gen_rawsites.py regenerates, from the clang AST of every src/**/*.cpp and of every header, the list of raw memory "
+         "access sites (pointer dereference / subscript / member access through a cast pointer / memcpy, memcmp, memset, std::copy and other foreign "
+         "calls with raw pointer operands / pointer casts / pointer arithmetic / hand-over of a raw pointer to another function) and of the conditions "
+         "(guards) of every function reachable by name from the entry points and option decoders, keyed by function + kind + normalised expression "
+         "text; theorems raw_sites_covered and raw_guards_present (decide +kernel) demand, for every site, a disposition in Wire/RawCoverage.lean "
+         "(the Lean model function that mirrors it with a fault-explicit read and its safety theorem | why it cannot leave the buffer) and that every "
+         "bounds check a disposition cites is still in the source: a raw access added to a parser, or a guard removed from one — neither of which "
+         "changes any Lean model — is reported with the function and the expression, after a search directed at the entry points that reach it. "
+         "Wire/Raw/*.lean mirrors the typed option decoders that walk a raw pointer (ICMPv6, 802.11 management, IP route options, DHCPv6 class data, "
+         "extract_metadata, sum_range, crc32, hw_address_to_string) statement for statement and proves raw decoder = total decoder for all byte strings "
+         "(raw_decoders_safe_*).",
     note="The theorems are about hand-written, code-shaped Lean models of 53 entry classes in seven families (link layers, IPv4 + options / AH / ESP, "
          "IPv6 + extension headers, TCP + options / UDP, ICMP / ICMPv6 + extensions, DHCP / DHCPv6 / BootP / RTP / VXLAN / ARP / STP, 802.11 / "
          "RadioTap / EAPOL; list in the evidence: modelled_classes); the tie to the C++ is differential correspondence of every line under "
          "ASan/UBSan/LSan plus the Lean spec oracle evaluated on the implementation's own output; DNS as an entry class and the paths "
          "the model cannot express (host routing table in IP::prepare_for_serialize, EAPOL null result) get the implementation-side oracle "
-         "only (evidence: unmodelled_lines). Trusted: Lean kernel + propext/Classical.choice/Quot.sound, the models, harness, generators, "
-         "translator/gen_tags.py, translator/gen_entrypoints.py and the hand-maintained disposition table Wire/Coverage.lean; allocator / lifetime "
-         "behaviour is observed by the sanitizers, not proved.",
-    technique="Lean 4 proof over executable byte-level models + model/impl correspondence + spec oracle on impl output",
-    design="DESIGN.md §6 C01, §11.2")
+         "only (evidence: unmodelled_lines). The raw-site tie is syntactic: a site is function + kind + expression text + number of occurrences, the "
+         "parse path is an over-approximation by name, and the `argued` rows of the disposition table (evidence: raw_sites_argued; mostly the "
+         "hand-over of an unmodified (pointer, size) pair, of the rest of a stream, of an option's own data) are arguments, not theorems; std::vector / "
+         "std::string element access and C strings are outside it. Trusted: Lean kernel + propext/Classical.choice/Quot.sound, the models, harness, generators, "
+         "translator/gen_tags.py, translator/gen_entrypoints.py, translator/gen_rawsites.py and the hand-maintained disposition tables Wire/Coverage.lean, "
+         "Wire/RawCoverage.lean; allocator / lifetime behaviour is observed by the sanitizers, not proved.",
+    technique="Lean 4 proof over executable byte-level models + model/impl correspondence + spec oracle on impl output + AST-regenerated coverage tables (entry points, raw sites, guards) decided in the kernel",
+    design="DESIGN.md §6 C01, §11.2, §11.6, §11.7; lean/TinsModel/Wire/RawCoverage.lean (raw-site tie)")
 MANIFEST["note"] += (" Constants and limits of the C++ source that the model restates (translator/gen_limits.py -> Gen/Limits.lean: "
                      "compiled probe + preprocessed function bodies at named anchors) are tied to the model's numerals by the "
                      "theorems of lean/TinsModel/Props/Limits/Wire.lean (audit: Audit/LimitsWire.lean); tools/LIMITS-INVENTORY.md lists "
@@ -123,13 +137,13 @@ def entry_seeds(rng):
     }
 
 
-def gen_entry_ops(rng, rows, quick):
+def gen_entry_ops(rng, rows, quick, upto=None, nrand=None):
     """ops for harness/c01_entry.cpp: for every driven row every length 0..N of zeros / ones / random bytes, structured
     seeds and mutants; the dispatchers additionally for every tag they know"""
     sd = wc.seeds()
     special = entry_seeds(rng)
-    upto = 40 if quick else 96
-    nrand = 6 if quick else 60
+    upto = upto or (40 if quick else 96)
+    nrand = nrand or (6 if quick else 60)
     ops = []
 
     def fills(ln):
@@ -299,21 +313,268 @@ def run_entry_points(chk, gen):
                         "not construct-from-buffer forms in this sense"]
 
 
+# ------------------------------------------------------------------------------------------ raw-site coverage
+
+RAW_AUDIT = "Audit/C01Raw.lean"
+RAW_TABLE = "TinsModel/Wire/RawCoverage.lean"
+NO_CORR = os.environ.get("VERIF_C01_NO_CORR") == "1"     # test switch: prove only, run no correspondence / sweep / search
+READERS = r'(?:(?<![A-Za-z_.])(?:rd|rdN|rdInc|rdRange|Cursor\.rest|Cursor\.peek|[A-Za-z_0-9.]+\.peek|peek|extOf)|\.fault)\s+"([^"]+)"'
+
+
+def model_site_strings():
+    """every site string a fault-explicit read (`rd` / `rdN` / `peek` / `Cursor.rest`, or a literal `.fault "site"`) of a Lean model carries"""
+    out = set()
+    for f in glob.glob(os.path.join(core.LEAN, "TinsModel", "**", "*.lean"), recursive=True):
+        rel = os.path.relpath(f, core.LEAN)
+        if rel.endswith("RawCoverage.lean") or rel.endswith("Wire/Coverage.lean") or "/Gen/" in rel or "/Props/" in rel:
+            continue
+        try:
+            out.update(re.findall(READERS, open(f, errors="replace").read()))
+        except OSError:
+            pass
+    return out
+
+
+def split_key(k):
+    """function | kind | expression [| xN]  ->  (function, kind, expression)"""
+    f = k.split(" | ")
+    if len(f) >= 4 and re.fullmatch(r"x\d+", f[-1]):
+        f = f[:-1]
+    return (f[0], f[1], " | ".join(f[2:])) if len(f) >= 3 else (k, "?", "")
+
+
+def raw_status(chk, raw, build_ok):
+    """what Lean says about the disposition table against the regenerated tables:
+       new     [(function, kind, expr, key)]   sites of the current tree without a disposition (rawSites_covered fails)
+       gone    [(function, cond, key)]         guards a disposition cites that are no condition of the source any more
+       other   [text]                          table defects (a model / theorem / site string that does not exist, scan errors)"""
+    st = dict(new=[], gone=[], other=[], counts=None, rows=[], stale=[])
+    text = ""
+    if build_ok:
+        r = core.lake(["env", "lean", RAW_AUDIT])
+        text = r.stdout + r.stderr
+        if r.returncode != 0:
+            st["other"].append("the raw-site table could not be evaluated: " + text[-800:])
+    if not build_ok or "RAWSITE" not in text:
+        # the table does not build: elaborate its source (it needs only the generated table) to have Lean name the rows
+        core.lake(["build", "TinsModel.Gen.RawSites"])
+        r = core.lake(["env", "lean", RAW_TABLE])
+        text = r.stdout + r.stderr
+    m = re.search(r"RAW SITES WITHOUT A DISPOSITION[^:]*: (.*?) ;;END", text, re.S)
+    if m:
+        for k in m.group(1).split(" ;; "):
+            fn, kind, expr = split_key(k.strip())
+            st["new"].append((fn, kind, expr, k.strip()))
+    m = re.search(r"GUARDS CITED BY[^:]*: (.*?) ;;END", text, re.S)
+    if m:
+        for k in dict.fromkeys(x.strip() for x in m.group(1).split(" ;; ")):      # a guard cited by several rows is named once
+            fn, kind, expr = split_key(k)
+            st["gone"].append((fn, expr, k))
+    m = re.search(r"translator defect[^\n]*", text)
+    if m:
+        st["other"].append(m.group(0)[:600])
+    sites = None
+    for l in text.split("\n"):
+        f = l.split("\t")
+        if f[0] == "RAWSITE" and len(f) >= 7:
+            st["rows"].append(dict(tag=f[1], function=f[2], kind=f[3].split(".")[-1], expr=f[4], site=f[5], text=f[6]))
+            if f[1] == "modelled" and f[5]:
+                sites = sites if sites is not None else model_site_strings()
+                if f[5] not in sites:
+                    st["other"].append(f"lean/{RAW_TABLE}: row `{f[2]} | {f[4]}` names the model site \"{f[5]}\", which no fault-explicit read "
+                                       "(rd / rdN / peek / Cursor.rest) of the Lean models carries")
+        elif f[0] == "COUNTS" and len(f) >= 7:
+            st["counts"] = dict(zip(("total", "modelled", "argued", "unmodelled", "guards", "guards_cited"), map(int, f[1:7])))
+        elif f[0] == "STALE" and len(f) >= 2:
+            st["stale"].append(f[1])
+        elif f[0] == "BADNAME" and len(f) >= 3:
+            st["other"].append(f"lean/{RAW_TABLE}: row `{f[2]}` names `{f[1]}`, which is no declaration of the Lean library")
+    for u in raw.get("errors", []):
+        st["other"].append("raw-site scan: " + u)
+    for u in raw.get("missing_roots", []):
+        st["other"].append("raw-site scan: no definition found for entry point " + u)
+    return st
+
+
+def reaching(raw, gen, functions):
+    """(entry-point rows, wire entry classes) from which the translator's call graph reaches one of `functions`"""
+    roots = set()
+    for fn in functions:
+        roots |= set(raw.get("reached_from", {}).get(fn, []))
+    qn = set()
+    classes = set()
+    decoders = False
+    for k in roots:
+        m = re.match(r"^(.*?)::([A-Za-z_0-9]+)\(", k)
+        if not m:
+            continue
+        owner, name = m.group(1), m.group(2)
+        qn.add(owner + "::" + name)
+        if name in ("from_option", "from_extension_header", "to"):
+            decoders = True
+            classes.add(owner.split("::")[0])
+        elif owner.split("::")[-1] == name:
+            classes.add(owner)
+        elif name == "from_bytes" and owner in ("Dot11", "EAPOL"):
+            classes.add(owner + "*")
+    rows = [r for r in gen["rows"] if (r["owner"] + "::" + r["name"]) in qn]
+    out = set()
+    for c in classes:
+        if c in wc.ENTRY_CLASSES:
+            out.add(c)
+        if c in ("Dot11ManagementFrame", "RSNInformation", "Dot11"):
+            out |= {x for x in wc.ENTRY_CLASSES if x.startswith("Dot11")} | {"RadioTap"}
+        if c in ("Internals", "PDUOption"):            # the generic converters: every class with options
+            out |= {"IP", "TCP", "DHCP", "DHCPv6", "ICMPv6", "PPPoE", "Dot11*", "Dot11Beacon", "Dot11ProbeResponse", "Dot11AssocRequest"}
+        if c == "EAPOL":
+            out |= {"EAPOL*", "RC4EAPOL", "RSNEAPOL"}
+    # a class reached only through another one (IP inside EthernetII ...) is driven through its own entry as well as theirs
+    return rows, sorted(out), decoders
+
+
+def directed_search(chk, raw, gen, functions, budget_s):
+    """the search step of the verdict contract for a broken raw-site tie: extra effort on the entry points and wire classes
+    that reach the changed functions (the c01_entry sweep with more lengths / seeds, the wire generators with n multiplied).
+    True = a concrete failing input (sanitizer fault / oracle violation) was found and recorded."""
+    rows, classes, decoders = reaching(raw, gen, functions)
+    t0 = time.time()
+    before = len(chk.violations)
+    found = lambda: any(not nofail for _, _, nofail in chk.violations[before:])
+    info = chk.extra.setdefault("raw_site_search", {})
+    info.update(functions=sorted(functions), entry_rows=[r["key"] for r in rows][:40], wire_classes=classes, ops=0)
+    quick = chk.tier == "quick"
+    exe, _ = core.build_harness("c01_entry")
+    out, _ = core.run_harness_lines(exe, [], ["list"], ("list",)) if exe else ([], None)
+    driven = set(out[0].split(" ")[1:]) if out and out[0].startswith("keys") else set()
+    todo = [r for r in rows if opkey(r["key"]) in driven]
+    gens = wire_checks.family_gens()
+    rounds = 2 if quick else 10
+    for k in range(rounds):
+        if found() or time.time() - t0 > budget_s:
+            break
+        rng = random.Random(chk.seed * 7919 + 104729 * (k + 1))
+        if exe and todo:
+            ops = gen_entry_ops(rng, todo, False, upto=128 if k == 0 else 64, nrand=40)
+            if k > 0:
+                ops = [o for i, o in enumerate(ops) if i % 2 == k % 2]       # later rounds: the random / mutated part matters
+            info["ops"] += len(ops)
+            corr.correspond(chk, "C01", exe, ops, case_start=("entry",), model=False,
+                            classify=lambda op, impl: "entry:" + impl.split(" ")[0],
+                            sig_of=lambda kd, d, c: {"kind": kd, "class": "entry", "entry": c[-1].split(" ")[1] if c else ""})
+        if found() or time.time() - t0 > budget_s or not classes:
+            continue
+        n = (6000 if quick else 60000) * 2
+        ops = wc.every_length_ops(classes, upto=160) if k == 0 else []
+        ops += wc.gen_parse_ops(rng, n, classes=classes, max_random_len=400)
+        for g in gens:
+            if hasattr(g, "gen_parse"):
+                ops += [o for o in g.gen_parse(rng, n // 2) if o.split(" ")[1] in classes]
+        info["ops"] += len(ops)
+        for i in range(0, len(ops), 20000):
+            if found() or time.time() - t0 > budget_s:
+                break
+            if wc.run_wire(chk, "C01", ops[i:i + 20000], sig_of=wire_checks.sig_of) is None:
+                break
+    info["wall_s"] = round(time.time() - t0, 1)
+    info["found"] = found()
+    return found()
+
+
+def only_raw_table_broken():
+    """does everything Props/C01.lean imports, except the raw-site table, still build?  (then a failing build of the property is
+    explained by the table alone)"""
+    src = open(os.path.join(core.LEAN, "TinsModel", "Props", "C01.lean")).read()
+    mods = [m for m in re.findall(r"^import (\S+)", src, re.M) if m != "TinsModel.Wire.RawCoverage"]
+    ok, _ = core.lake_build(mods)
+    return ok
+
+
+def run_raw_sites(chk, raw, problems):
+    """report what the raw-site tie says; returns the proof problems it does NOT explain"""
+    build_ok = not any(p.startswith("lake build failed") for p in problems)
+    st = raw_status(chk, raw, build_ok)
+    ev = chk.extra.setdefault("raw_sites", {})
+    if st["counts"]:
+        c = st["counts"]
+        ev.update(raw_sites_total=c["total"], raw_sites_modelled=c["modelled"], raw_sites_argued=c["argued"],
+                  raw_sites_unmodelled=c["unmodelled"], guards_listed=c["guards"], guards_cited=c["guards_cited"])
+        by_kind = {}
+        for r in st["rows"]:
+            by_kind.setdefault(r["kind"], {}).setdefault(r["tag"], 0)
+            by_kind[r["kind"]][r["tag"]] += 1
+        ev["by_kind"] = by_kind
+        ev["unmodelled_functions"] = sorted({r["function"] for r in st["rows"] if r["tag"] == "unmodelled"})
+    ev["functions_on_parse_path"] = raw.get("reach")
+    ev["functions_scanned"] = raw.get("functions")
+    ev["excluded_roots"] = sorted({w for _, w in raw.get("excluded", [])})
+    ev["stale_table_rows"] = st["stale"]
+    chk.trusted += ["translator/gen_rawsites.py (clang-14 AST of every src/**/*.cpp and of every header -> Gen/RawSites.lean: raw sites and "
+                    "guards of the functions reachable by name from the entry points and option decoders), the hand-maintained disposition table "
+                    "lean/TinsModel/Wire/RawCoverage.lean (its `argued` rows are arguments, not theorems)"]
+    chk.assumptions += ["raw sites = pointer dereference / subscript / member access through a pointer / memcpy, memcmp, memset, std::copy and other "
+                        "foreign calls with raw pointer operands / pointer casts / pointer arithmetic / hand-over of a raw pointer to a function of "
+                        "namespace Tins, in functions reachable BY NAME from the entry points of Gen/EntryPoints (without matches_response: C14; the "
+                        "writers: C02) and from `from_option` / `from_extension_header` / `PDUOption::to`; std::vector / std::string operator[] and "
+                        "iterators, C strings (char*), the DNS record getters (C10), crypto (C09), the RadioTap writer (C11) and the sniffer loop "
+                        "(C17) are outside this table",
+                        "a site is keyed by function + kind + normalised expression text + number of occurrences: an edit that keeps all four "
+                        "(e.g. changing the value of a variable the expression mentions) is seen only through the guards a disposition cites"]
+    broken = bool(st["new"] or st["gone"])
+    explained = broken and not build_ok and only_raw_table_broken()
+    rest = [p for p in problems if not (explained and p.startswith("lake build failed"))]
+    if not (broken or st["other"]):
+        return rest
+    functions = {fn for fn, _, _, _ in st["new"]} | {fn for fn, _, _ in st["gone"]}
+    found = any(not nofail for _, _, nofail in chk.violations)
+    if broken and not found and not NO_CORR:
+        found = directed_search(chk, raw, gen_cache["gen"], functions, 80 if chk.tier == "quick" else 900)
+    tail = ("" if found else "; theorem Tins.Wire.RawCoverage.rawSites_covered / guards_present (Props.C01.raw_sites_covered, raw_guards_present) no longer "
+            "checks (correspondence, sweep and search disabled by VERIF_C01_NO_CORR)" if NO_CORR else "; theorem Tins.Wire.RawCoverage.rawSites_covered / guards_present (Props.C01.raw_sites_covered, raw_guards_present) no longer "
+            "checks and the directed search (entry sweep + wire generators of the classes that reach the function) found no failing input")
+    for fn, kind, expr, key in st["new"]:
+        chk.violation(f"raw-site coverage: new raw memory access without a model: {fn} {expr}  [{kind}]" + tail,
+                      ["raw-site-coverage", f"new-site {key}", "theorem Tins.Wire.RawCoverage.rawSites_covered",
+                       "# reached from: " + ", ".join(raw.get("reached_from", {}).get(fn, [])[:12])], nofail=not found,
+                      signature={"kind": "raw-site", "function": fn, "expr": expr})
+    for fn, cond, key in st["gone"]:
+        chk.violation(f"raw-site coverage: a bounds check the safety argument of a raw access relies on is gone from the source: {fn} {cond}" + tail,
+                      ["raw-site-coverage", f"gone-guard {key}", "theorem Tins.Wire.RawCoverage.guards_present",
+                       "# reached from: " + ", ".join(raw.get("reached_from", {}).get(fn, [])[:12])], nofail=not found,
+                      signature={"kind": "raw-guard", "function": fn, "expr": cond})
+    for t in st["other"]:
+        chk.violation("raw-site coverage: " + t, ["raw-site-coverage", t], nofail=True)
+    return rest
+
+
+gen_cache = {}
+
+
 def run(chk):
     import translator.gen_entrypoints as gen_entrypoints
+    import translator.gen_rawsites as gen_rawsites
     gen = gen_entrypoints.main(["--quiet"])          # regenerate Gen/EntryPoints.lean + harness/c01_entry_gen.h before proving
-    wire_checks.run_property(chk, "C01", want_parse=True, want_build=False)
+    raw = gen_rawsites.main(["--quiet"])             # regenerate Gen/RawSites.lean (cached per translation unit) before proving
+    gen_cache["gen"] = gen
+    res = wire_checks.run_property(chk, "C01", want_parse=True, want_build=False, defer_problems=True, no_corr=NO_CORR)
+    problems, total = res if res else (list(getattr(chk, "proof_problems", [])), {})
     chk.extra.setdefault("_seen", set())
-    run_entry_points(chk, gen)
-    exe, err = core.build_harness("c01_cursor")
-    if exe is None:
-        chk.violation("harness does not build: " + (err or "")[-1500:], ["build-error"], nofail=True)
-        return
-    rng = random.Random(chk.seed + 17)
-    ops = gen_stream_ops(rng, 600 if chk.tier == "quick" else 20000)
-    chk.extra.setdefault("_seen", set())
-    corr.correspond(chk, "C01", exe, ops, case_start=("cinit", "oinit"),
-                    sig_of=lambda k, d, c: {"kind": k, "class": "stream"})
+    if not NO_CORR:
+        run_entry_points(chk, gen)
+        exe, err = core.build_harness("c01_cursor")
+        if exe is None:
+            chk.violation("harness does not build: " + (err or "")[-1500:], ["build-error"], nofail=True)
+            return
+        rng = random.Random(chk.seed + 17)
+        ops = gen_stream_ops(rng, 600 if chk.tier == "quick" else 20000)
+        chk.extra.setdefault("_seen", set())
+        corr.correspond(chk, "C01", exe, ops, case_start=("cinit", "oinit"),
+                        sig_of=lambda k, d, c: {"kind": k, "class": "stream"})
+    # the raw-site tie last: its directed search runs only when nothing above has already exhibited a failing input
+    rest = run_raw_sites(chk, raw, problems)
+    chk.proof_problems = rest                        # what the raw-site tie explains is reported by it, with the site
+    for p in rest:
+        if not any(not nofail for _, _, nofail in chk.violations):
+            chk.violation("proof obligation no longer checks: " + p[:1500], ["theorem-or-audit-failure", p[:4000]], nofail=True)
     corr.finalize_cov(chk)
 
 
@@ -327,6 +588,21 @@ def replay(path):
         print("lake build TinsModel.Props.C01:", "ok" if ok else "FAILS")
         if not ok:
             print(text[-1500:])
+            print(f"VIOLATION property=C01 replay={path}")
+            return 1
+        return 0
+    if ops and ops[0].split(" ")[0] == "raw-site-coverage":
+        import translator.gen_rawsites as gen_rawsites
+        raw = gen_rawsites.main(["--quiet"])
+        ok, text = core.lake_build(["TinsModel.Props.C01"])
+        print("\n".join(ops[1:]))
+        print("lake build TinsModel.Props.C01:", "ok" if ok else "FAILS")
+        if not ok:
+            core.lake(["build", "TinsModel.Gen.RawSites"])
+            r = core.lake(["env", "lean", RAW_TABLE])
+            for l in (r.stdout + r.stderr).split("\n"):
+                if "WITHOUT A DISPOSITION" in l or "GONE FROM THE SOURCE" in l:
+                    print(l[:3000])
             print(f"VIOLATION property=C01 replay={path}")
             return 1
         return 0
